@@ -200,6 +200,20 @@ func genDecW(emit func(string), tier string, rng *Rng) {
 			count("mutated")
 		}
 	}
+	// hand-built developer-data streams (wire_dev.go) and their mutations
+	for i := 0; i < n/2; i++ {
+		b := devwStream(rng)
+		emitB(rng.Intn(2), b)
+		count("devstream")
+		if rng.Intn(3) == 0 {
+			emitB(0, mutate(rng, b))
+			count("devstream-mutated")
+		}
+		if rng.Intn(6) == 0 { // two sequences in a chain: the descriptions of the first must not reach the second
+			emitB(rng.Intn(2), append(append([]byte{}, b...), devwStream(rng)...))
+			count("devstream-chain")
+		}
+	}
 	// arbitrary bytes behind a plausible header
 	for i := 0; i < n/3; i++ {
 		body := rng.Bytes(rng.Intn(60))
